@@ -61,6 +61,8 @@ type Store struct {
 	DieAt  int // if > 0: after DieAt mutating ops all further ops fail with ErrDead
 	OnDead func()
 	NoAtomicReplace bool
+	// AtomicReplace makes the store behave like a backend whose Save atomically replaces an existing config file
+	AtomicReplace bool
 	// Gate, if set, is called (without the store mutex) before every operation
 	Gate func(proc, kind string, h backend.Handle)
 	// ReadFault, if set, may alter the outcome of a Load
@@ -285,6 +287,9 @@ func (b *tbe) Properties() backend.Properties {
 	if b.s.NoAtomicReplace {
 		p.HasAtomicReplace = false
 	}
+	if b.s.AtomicReplace {
+		p.HasAtomicReplace = true
+	}
 	if b.s.Conns != 0 {
 		p.Connections = b.s.Conns
 	}
@@ -372,6 +377,10 @@ func (b *tbe) Save(ctx context.Context, h backend.Handle, rd backend.RewindReade
 		return err
 	}
 	return b.mutating("Save", h, data, func() error {
+		if b.s.AtomicReplace && h.Type == backend.ConfigFile {
+			// a backend with atomic replace overwrites the existing file in one step
+			_ = b.inner.Remove(ctx, normHandle(h))
+		}
 		return b.inner.Save(ctx, h, rd)
 	})
 }
